@@ -1096,6 +1096,51 @@ def mon_commit(rr, readable=True):
     return out
 
 
+def gen_cancel_programs(r):
+    """Async writers one of whose `write` futures is polled once and dropped (a lost `select!` branch, a timeout)
+    while its blocking operation may still be in flight, after which the caller carries on and commits.  Which
+    bytes such a writer ends up holding is the library's business (implementation only, no model); whatever it
+    publishes must hash to its address, what the commit returns must be the digest of what the key then reads,
+    and no temp file may stay behind."""
+    progs = []
+    big = bytes((i * 13 + 5) % 253 for i in range(3 << 20))
+    shapes = [
+        ("plain-keyed", "x6b63", "size=-", [("c", big), ("w", b"tail bytes")]),
+        ("plain-keyed-small", "x6b64", "size=-", [("c", b"AAAAA"), ("w", b"world!!")]),
+        ("mapped-by-address", "-", "size=7", [("c", b"AAAAA"), ("w", b"BB")]),
+        ("mapped-by-address-2", "-", "size=70000", [("c", big[:60000]), ("c", big[:5000]), ("w", big[:5000])]),
+        ("plain-by-address", "-", "size=-", [("c", big), ("c", big[:1 << 20]), ("w", b"end")]),
+        ("overflow-by-address", "-", "size=16", [("c", big[:12]), ("w", big[:12])]),
+    ]
+    for name, key, size, chunks in shapes:
+        ops = [f"wopen a c0 W1 {key} algo=sha256 {size} sri=- time=- meta=- raw=-"]
+        for kind, d in chunks:
+            ops.append(f"{'wwrite_cancel' if kind == 'c' else 'wwrite'} W1 {hx(d)}")
+        ops.append("wcommit W1"); ci = len(ops) - 1
+        if key != "-":
+            ops.append(f"read s c0 {key}")
+        ops += ["dump c0/content-v2", "dump c0/tmp"]
+        progs.append(Program(f"cancel-{name}", ops, model=False, tags={"cancel": ci, "keyed": key != "-", "variety": ("cancel", name)}))
+    return progs
+
+
+def mon_cancel(rr):
+    out = []
+    t = rr.prog.tags
+    ci = t["cancel"]
+    if len(rr.impl) < len(rr.prog.ops) or any(toks(l)[0] in ("panic", "hang") for l in rr.impl):
+        return [Failure("panic", min(len(rr.impl), len(rr.prog.ops)) - 1, "a writer with a cancelled write panicked / hung", sig={"op": "wwrite_cancel"})]
+    commit = toks(rr.impl[ci])
+    if t["keyed"] and commit[0] == "ok":
+        rd = toks(rr.impl[ci + 1])
+        if rd[0] != "ok" or L.sri_of("sha256", unhx(rd[1])) != unhx(commit[1]).decode(errors="replace"):
+            out.append(Failure("wrong_address", ci, "after a cancelled write the commit's integrity is not the digest of what the key reads "
+                               f"({' '.join(rd[:1])})", sig={"op": "wcommit"}))
+    if norm(rr.impl[-1]) != "ok":
+        out.append(Failure("tmp_left", len(rr.impl) - 1, "temp file left behind by a writer with a cancelled write", sig={"op": "wwrite_cancel"}))
+    return out
+
+
 def gen_abandon_programs(r, n):
     progs = []
     for i in range(n):
@@ -1481,7 +1526,12 @@ def gen_layout_programs(r, n):
         frames = b"".join(rec_frame(x) for x in recs)
         d2 = b"reference content " + bytes([i % 256])
         algo2 = r.pick(L.ALGOS)
-        recs2 = recs + [(key2, L.sri_of(algo2, d2), r.pick([4242, 1, 0, 2**70]), len(d2),
+        # an integrity may name several algorithms: the data lives at the address of the STRONGEST one
+        integ2 = L.sri_of(algo2, d2)
+        weaker = L.ALGOS[:L.ALGOS.index(algo2)]
+        if weaker and r.chance(0.4):
+            integ2 = integ2 + " " + L.sri_of(r.pick(weaker), d2)
+        recs2 = recs + [(key2, integ2, r.pick([4242, 1, 0, 2**70]), len(d2),
                          {"by": "reference", "z": [1, 2], "a": "\u00e9"}, None)]
         # the reference writer does not have to spell JSON the way serde_json does
         style = r.pick(["canonical", "python", "unsorted", "reordered", "spaced"])
